@@ -110,6 +110,7 @@ Example O06_inv_range_sites :
   "goose.Ctx.returnExpr | es";
   "goose.Ctx.returnType | rs";
   "goose.Ctx.returnType | rs";
+  "goose.Ctx.funcDecl | fd.Args";
   "goose.Ctx.constDecl | d.Specs";
   "goose.Ctx.globalVarDecl | d.Specs";
   "goose.Ctx.imports | d";
